@@ -24,7 +24,7 @@ var c08Lexemes = []string{
 	"a", " ", "{{", "}}", "1", "x", "@if(", ")", "@end", "@else", "@elseif(", "@each(", "@for(", "in", ";",
 	"=", "+", "-", "*", "/", "%", "==", "<", "!", "++", "--", "?", ":", ",", ".", "(", "[", "]", "{", "}",
 	`"s"`, `"`, "'", "true", "nil", "2.5", "{{--", "--}}", "@break", "@continue", "@breakIf(", "@continueIf(",
-	"@dump(", "@use(", "@reserve(", "@insert(", "@component(", "@slot", "@slot(", "@if", "\\", "\n", "^", "\xff",
+	"@dump(", "@use(", "@reserve(", "@insert(", "@component(", "@slot", "@slot(", "@if", "\\", "\n", "^", "\xff", "\xa0", "\v",
 }
 
 // structural subset used for the longer sequences of the thorough tier
